@@ -130,8 +130,19 @@ def run(ctx, impl_only=False):
                     case = {'t1': repr(t1), 't2': repr(t2), 'zip': zip_, 'mode': mode, 'paths': ps}
                     ctx.evaluations += 1
                     kw = dict(base_kw)
+                    # the documented short spelling of a top-level key (name for root['name']), for some paths of a set and not for others
+                    def spell(p_):
+                        m_ = re.fullmatch(r"root\['([A-Za-z][A-Za-z0-9 ]*)'\]", p_)
+                        return m_.group(1) if (m_ and ctx.rng.random() < 0.35) else p_
+                    if mode in ('exclude', 'include') and len(ps) >= 1:
+                        sp = [spell(p_) for p_ in ps]
+                        if sp != list(ps):
+                            case = dict(case, spelled=sp)
+                            ctx.count('bare_key_spelling')
+                    else:
+                        sp = list(ps)
                     if mode == 'exclude':
-                        kw['exclude_paths'] = list(ps)
+                        kw['exclude_paths'] = list(sp)
                         want = [e for e in full if not any(entry_path(e) is not None and at_or_below(entry_path(e), p) for p in ps)]
                     elif mode == 'regex':
                         kw['exclude_regex_paths'] = ['^' + re.escape(p) + r'(\[|$)' for p in ps]
@@ -141,7 +152,7 @@ def run(ctx, impl_only=False):
                         kw['exclude_regex_paths'] = ['^' + re.escape(p) + r'(\[|$)' for p in ps[1:]]
                         want = [e for e in full if not any(entry_path(e) is not None and at_or_below(entry_path(e), p) for p in ps)]
                     else:
-                        kw['include_paths'] = list(ps)
+                        kw['include_paths'] = list(sp)
                         want = [e for e in full if any(entry_path(e) is not None and (at_or_below(entry_path(e), p) or above(entry_path(e), p) or entry_path(e) == 'root') for p in ps)]
                     try:
                         dd = DeepDiff(t1, t2, **kw)
